@@ -1079,6 +1079,9 @@ REG["jnp.logical_or"] = _ew2(lambda x, y: x + y - x * y)
 def _where(it, a, k, node):
     if len(a) != 3:
         raise Unsupported("one-argument where")
+    wl = getattr(it.ctx, "where_log", None)
+    if wl is not None:
+        wl.append({"file": it.cur_file(), "line": getattr(node, "lineno", None), "fn": it.cur_fn(), "cond": _arr(_b2p(a[0])), "a": _arr(a[1]), "b": _arr(a[2]), "src": ast.unparse(node) if node is not None else ""})
     return T.ewise(lambda c, x, y: c * x + (1 - c) * y, _arr(_b2p(a[0])), _arr(a[1]), _arr(a[2]))
 
 
